@@ -11,6 +11,7 @@ from framework import Outcome
 
 SHAPES = ("TS", "TSS", "TSD", "TSB")
 F8 = "F8-stale-removed-elements-on-reference-retarget"
+F11 = "F11-removed-items-empty-on-reference-retarget"
 F10 = "F10-nested-boundary-rebind-ticks-consumer-with-unchanged-value"
 
 
@@ -174,6 +175,15 @@ class C13:
                     v = ("not_modified_on_sample", "t=%d consumer %d evaluated but its input does not read modified" % (t, c))
                     break
                 if shape[0] in ("TSS", "TSD"):
+                    dis = oc.item_views_disagree(ci)
+                    if dis and retarget and oc.only_removed_items_empty(ci):
+                        # known finding F11: on a retarget removed_items()/removed_values() of the input are empty
+                        if not known:
+                            known = F11
+                            known_detail = "t=%d consumer %d (retarget): %s" % (t, c, dis)
+                    elif dis:
+                        v = ("delta_views_disagree", "t=%d consumer %d%s: %s" % (t, c, " (retarget)" if retarget else "", dis))
+                        break
                     added, removed = oc.keysets(shape, ci)
                     cur_keys = set(val) if shape[0] == "TSS" else set(val.keys())
                     pv = prev_view[c]
@@ -206,7 +216,7 @@ class C13:
                 prev_view[c] = val
             if v:
                 break
-        viol = dict(clause=v[0], detail=v[1]) if v else (dict(clause="retarget_removed_never_present", detail=known_detail, known=known) if known else None)
+        viol = dict(clause=v[0], detail=v[1]) if v else (dict(clause="known_class:" + known.split("-")[0], detail=known_detail, known=known) if known else None)
         return Outcome(violation=viol, stats=stats, digest=res.digest, nontrivial=stats["retargets"] >= 2, sample=sample, shape=runner.h64(text))
 
     def shrink(self, case):
